@@ -371,6 +371,9 @@ var c14StyleStatics = map[string]map[string]string{
 	// property names are case-insensitive for CSS, but every declaration written stays
 	`Margin: 0; padding: 1px`:          {"margin": "0", "padding": "1px"},
 	`BORDER: none; Top: 0; z-index: 2`: {"border": "none", "top": "0", "z-index": "2"},
+	// the same property declared more than once (fallback values): every declaration stays, in order
+	`display: -webkit-box; display: flex; margin: 0`:              {"display": "flex", "margin": "0"},
+	`width: 100px; width: calc(100% - 2px); width: min(1px, 2px)`: {"width": "min(1px, 2px)"},
 }
 
 func (c *c14Case) runStyleValues(ctx *core.Ctx) {
@@ -413,6 +416,27 @@ func (c *c14Case) runStyleValues(ctx *core.Ctx) {
 		got[strings.ToLower(k)] = v // (names compared without regard to case)
 	}
 	ctx.Outcome(st)
+	// the values a property is given in the static attribute are still there, in their order
+	// (unless the bound style sets that property)
+	seq := func(style string) map[string][]string {
+		m := map[string][]string{}
+		for _, part := range splitDecls(style) {
+			if k, v, ok := strings.Cut(part, ":"); ok {
+				k = strings.ToLower(strings.TrimSpace(k))
+				m[k] = append(m[k], strings.TrimSpace(v))
+			}
+		}
+		return m
+	}
+	outSeq := seq(st)
+	for k, vs := range seq(c.Form) {
+		if (c.StyleB == "obj1" && k == "color") || (c.StyleB == "str" && (k == "color" || k == "top")) || (c.Show == "f" && k == "display") {
+			continue
+		}
+		if fmt.Sprint(outSeq[k]) != fmt.Sprint(vs) {
+			ctx.Violation("style-merge", "style-values/bound="+c.StyleB+"/show="+c.Show, "repeated-declaration", fmt.Sprintf("tpl %q: style %q gives %s the values %q, the static attribute gave it %q", tpl, st, k, outSeq[k], vs))
+		}
+	}
 	if fmt.Sprint(sortedKV(got)) != fmt.Sprint(sortedKV(want)) {
 		ctx.Violation("style-merge", "style-values/bound="+c.StyleB+"/show="+c.Show, "semicolon-or-colon-inside-a-value", fmt.Sprintf("tpl %q: style %q parses to %v, want %v", tpl, st, sortedKV(got), sortedKV(want)))
 	}
